@@ -361,6 +361,7 @@ namespace Pistache::Async
                 catch (const InternalRethrow& e)
                 {
                     // the derived promise is settled here: serialise with a then() on it
+                    PISTACHE_VERIF_POINT(20, &chain_->mtx);
                     std::lock_guard<std::mutex> chainGuard(chain_->mtx);
                     chain_->exc   = e.exc;
                     PISTACHE_VERIF_POINT(22, chain_.get());
@@ -449,6 +450,7 @@ namespace Pistache::Async
                 void doReject(const std::shared_ptr<CoreT<T>>& core) override
                 {
                     reject_(core->exc);
+                    PISTACHE_VERIF_POINT(20, &this->chain_->mtx);
                     std::lock_guard<std::mutex> chainGuard(this->chain_->mtx);
                     for (const auto& req : this->chain_->requests)
                     {
@@ -462,6 +464,7 @@ namespace Pistache::Async
                 {
                     typedef typename std::decay<Ret>::type CleanRet;
                     // the derived promise is settled here: serialise with a then() on it
+                    PISTACHE_VERIF_POINT(20, &this->chain_->mtx);
                     std::lock_guard<std::mutex> chainGuard(this->chain_->mtx);
                     this->chain_->template construct<CleanRet>(std::forward<Ret>(ret));
                     for (const auto& req : this->chain_->requests)
@@ -499,6 +502,7 @@ namespace Pistache::Async
                 void doReject(const std::shared_ptr<CoreT<void>>& core) override
                 {
                     reject_(core->exc);
+                    PISTACHE_VERIF_POINT(20, &this->chain_->mtx);
                     std::lock_guard<std::mutex> chainGuard(this->chain_->mtx);
                     for (const auto& req : this->chain_->requests)
                     {
@@ -512,6 +516,7 @@ namespace Pistache::Async
                 {
                     typedef typename std::remove_reference<Ret>::type CleanRet;
                     // the derived promise is settled here: serialise with a then() on it
+                    PISTACHE_VERIF_POINT(20, &this->chain_->mtx);
                     std::lock_guard<std::mutex> chainGuard(this->chain_->mtx);
                     this->chain_->template construct<CleanRet>(std::forward<Ret>(ret));
                     for (const auto& req : this->chain_->requests)
@@ -636,6 +641,7 @@ namespace Pistache::Async
 
                     void operator()(const PromiseType& val)
                     {
+                        PISTACHE_VERIF_POINT(20, &chainCore->mtx);
                         std::lock_guard<std::mutex> chainGuard(chainCore->mtx);
                         chainCore->construct<PromiseType>(val);
                         for (const auto& req : chainCore->requests)
@@ -663,6 +669,7 @@ namespace Pistache::Async
                     promise.then(std::move(chainer), [weakPtr](std::exception_ptr exc) {
                         if (auto core = weakPtr.lock())
                         {
+                            PISTACHE_VERIF_POINT(20, &core->mtx);
                             std::lock_guard<std::mutex> chainGuard(core->mtx);
                             core->exc   = std::move(exc);
                             PISTACHE_VERIF_POINT(22, core.get());
@@ -722,6 +729,7 @@ namespace Pistache::Async
 
                     void operator()(const PromiseType& val)
                     {
+                        PISTACHE_VERIF_POINT(20, &chainCore->mtx);
                         std::lock_guard<std::mutex> chainGuard(chainCore->mtx);
                         chainCore->construct<PromiseType>(val);
                         for (const auto& req : chainCore->requests)
@@ -770,6 +778,7 @@ namespace Pistache::Async
                     auto chainer = makeChainer(promise);
                     promise.then(std::move(chainer), [=](std::exception_ptr exc) {
                         auto core   = this->chain_;
+                        PISTACHE_VERIF_POINT(20, &core->mtx);
                         std::lock_guard<std::mutex> chainGuard(core->mtx);
                         core->exc   = std::move(exc);
                         PISTACHE_VERIF_POINT(22, core.get());
